@@ -1,5 +1,6 @@
 """C17 - each kernel kind accepts exactly its documented vocabulary."""
 import importlib
+import itertools
 
 from vcommon import coqrun
 from vcommon.coqrun import clist
@@ -133,17 +134,93 @@ def const_ns():
             "CONST_INTS": ilist.IList([0, 1], elem=types.Int), "CONST_FLOATS": ilist.IList([0.0, 1.5], elem=types.Float)}
 
 
-def try_define(src):
+def try_define(src, **extra):
     from bloqade.geometry.dialects import grid as grid_mod
     from bloqade import shuttle
     ns = dict(kernel=shuttle.kernel, grid=grid_mod, atom=shuttle.atom)
     ns.update(TYPE_NS)
     ns.update(const_ns())
+    ns.update(extra)
     try:
         kernels.define(src, **ns)
         return "accepted", ""
     except Exception as e:
         return "rejected", type(e).__name__ + ": " + str(e).strip().splitlines()[0][:100] if str(e).strip() else type(e).__name__
+
+
+def option_specs():
+    """specs for the decorators' arch_spec= option; the literal name "traps" (what one_statement_kernels writes for a string attribute) is
+    known under every lookup kind / only as a special grid and an int constant / only as a static trap and a float constant / not at all"""
+    from bloqade.geometry.dialects.grid import Grid
+    from bloqade.shuttle.arch import ArchSpec, Layout
+    g, h = Grid.from_positions([0.0, 1.0, 2.5], [0.0, 2.0]), Grid.from_positions([10.0, 11.0], [5.0])
+    return {"name known under every kind": ArchSpec(layout=Layout({"traps": g}, {"traps"}, {"traps"}, {"traps"}, special_grid={"traps": h}), float_constants={"traps": 1.5}, int_constants={"traps": 3}),
+            "name known as special grid and int constant only": ArchSpec(layout=Layout({"zone": g}, {"zone"}, {"zone"}, {"zone"}, special_grid={"traps": h}), float_constants={}, int_constants={"traps": 3}),
+            "name known as static trap and float constant only": ArchSpec(layout=Layout({"traps": g}, {"traps"}, {"traps"}, {"traps"}, special_grid={}), float_constants={"traps": 0.0}, int_constants={}),
+            "empty spec": ArchSpec()}
+
+
+DEVICE_CALL_SRC = """
+@tweezer
+def kk(a: float, b: float):
+    g = grid.from_positions([a, a + 2.0], [b])
+    action.set_loc(g)
+    action.move(grid.shift(g, b, a))
+
+@move{DEC}
+def main(x: float, y: float):
+    z = spec.get_static_trap(zone_id="traps")
+    f = schedule.device_fn(kk, [0, 1], [0])
+    f({A}, {B})
+"""
+
+
+def arch_spec_option(ctx, ws, wcat):
+    """every accepted (wrapper, kind) cell again with the decorator's arch_spec= option, for four specs; and move kernels that call a device
+    function with every mix of operands known / not known at definition: what a kernel kind accepts is a matter of vocabulary"""
+    specs = option_specs()
+    n = 0
+    for (mn, nme, b, d), c in zip(ws, wcat):
+        for ki, kind in enumerate(KINDS):
+            if not POLICY[c][ki]:
+                continue
+            variants = [v for v in one_statement_kernels(kind, mn, nme, b) if v[0] in ("required arguments only", "constant operands, result used")]
+            for form, src in variants:
+                base, why0 = try_define(src)
+                if base != "accepted":
+                    continue            # judged (or excused as argument synthesis) by the plain matrix
+                for sname, SP in specs.items():
+                    if mn != "spec" and sname not in ("name known under every kind", "empty spec"):
+                        continue
+                    src2 = src.replace(f"@{kind}\n", f"@{kind}(arch_spec=SPEC)\n", 1)
+                    got, why = try_define(src2, SPEC=SP)
+                    ctx.evaluations += 1
+                    n += 1
+                    if got != "accepted":
+                        ctx.fail({"wrapper": f"{mn}.{nme}", "kind": kind, "got": got, "documented": "accept", "option": "arch_spec", "spec": sname},
+                                 {"src": src2, "expected": "accepted", "option_spec": sname},
+                                 f"@{kind}(arch_spec=...) ({sname}) {got} a kernel using {mn}.{nme} ({form}) that @{kind} accepts: {why}")
+                    else:
+                        ctx.nt((mn, nme, kind, form, "arch_spec", sname))
+    ctx.count("accepted cells re-defined with the arch_spec= option", n)
+    SP = specs["name known under every kind"]
+    m = 0
+    operands = {"literal": ("1.0", "2.0"), "parameter": ("x", "y"), "from a spec lookup": ('spec.get_float_constant(constant_id="traps")', 'spec.get_float_constant(constant_id="traps") * 2.0'),
+                "computed from a parameter": ("x + 1.0", "y * 2.0")}
+    for (ka, (a, _)), (kb, (_, bb)) in itertools.product(operands.items(), repeat=2):
+        for dec in ("", "(fold=False)", "(arch_spec=SPEC)", "(arch_spec=SPEC, fold=False)", "(arch_spec=SPEC, aggressive=True)"):
+            for kw in (False, True):
+                src = DEVICE_CALL_SRC.replace("{DEC}", dec).replace("{A}", ("a=" if kw else "") + a).replace("{B}", ("b=" if kw else "") + bb)
+                got, why = try_define(src, SPEC=SP)
+                ctx.evaluations += 1
+                m += 1
+                if got != "accepted":
+                    ctx.fail({"wrapper": "schedule.device_fn + call", "kind": "move", "got": got, "documented": "accept", "option": dec, "operands": [ka, kb]},
+                             {"src": src, "expected": "accepted", "option_spec": "name known under every kind"},
+                             f"@move{dec} {got} a move kernel that calls a device function with operands ({ka}, {kb}): {why}")
+                else:
+                    ctx.nt(("device-call", ka, kb, dec, kw))
+    ctx.count("move kernels calling a device function with every mix of known / unknown operands x decorator options", m)
 
 
 def run(ctx):
@@ -238,6 +315,8 @@ def run(ctx):
                              {"src": src, "expected": "accepted", "history": list(bad) + [src]},
                              f"@{kind} kernel using {mn}.{n} is {got} ({why}) when defined after other kernels were refused")
     ctx.count("accepted cells re-defined after refused definitions", n_again)
+    # ---- the decorators' arch_spec= option does not change the vocabulary ----
+    arch_spec_option(ctx, ws, wcat)
     # ---- the tracer's guard ----
     S = tweezer_prog.harness_spec()
     from bloqade.shuttle.codegen.taskgen import TraceInterpreter
@@ -293,5 +372,6 @@ def replay(data):
         return True, "re-run bin/check C17 (guard table)"
     for mn, n, b, d in wrappers():          # fills the table of declared operand types the annotated forms refer to
         one_statement_kernels("move", mn, n, b)
-    got, why = try_define(inp["src"])
+    extra = {"SPEC": option_specs()[inp["option_spec"]]} if inp.get("option_spec") else {}
+    got, why = try_define(inp["src"], **extra)
     return got != inp["expected"], f"{got} ({why}), documented: {inp['expected']}"
